@@ -1074,7 +1074,7 @@ func runC12(c *ctx) {
 	}
 	games := 450
 	if !c.quick() {
-		games = 4000
+		games = 12000
 	}
 	for i := 0; i < games; i++ {
 		g := c12GenGame(c)
